@@ -3,6 +3,7 @@
      state: "-" (no batches) or comma separated batches  N:<c> | H<hex>:<c>   (c = 0/1 control present)
      ops:   V<bits> validate, W<bits> validateWith, B<i> batch validate, S<r> string, J json,
             P write bypassing validation, X<bits> validating write;  bits = skipAll allowMissing hdrOk ok
+   K <b|c|r> <hexsec,...>: state of built / created / reader_file for these SEC codes
    result line: the states after each operation joined by ';', then " inv=<0/1> pinv=<0/1>" of the initial state *)
 open Model
 open Conv
@@ -44,6 +45,15 @@ let b01 b = if b then "1" else "0"
 let () =
   let path = Sys.argv.(1) in
   iter_lines path (fun line ->
+    if String.length line > 2 && line.[0] = 'K' then begin
+      (* K <mode> <hexsec,...>: the model of the constructions *)
+      match split_ws line with
+      | [_; mode; secs] ->
+        let secs = List.map bytes_of_hex (String.split_on_char ',' secs) in
+        let f = (match mode with "b" -> built secs | "c" -> created secs | _ -> reader_file secs) in
+        print_endline (show_state f ^ " inv=" ^ b01 (inv f) ^ " pinv=" ^ b01 (prefix_inv f))
+      | _ -> print_endline "?"
+    end else
     match String.index_opt line '|' with
     | None -> print_endline "?"
     | Some k ->
